@@ -86,7 +86,7 @@ def build_case(item):
             if cands:
                 x, y = rng.choice(cands)
                 if not ((x in T) != (y in T)):   # keep the target set intact
-                    t2 = t0.subs({x: y, y: x}, simultaneous=True)
+                    t2 = t0.xreplace({x: y, y: x})
                     if t2 is not S.Zero:
                         terms.append(rng.choice([1, -1, 2]) * t2)
     meta["explicit"] = explicit
